@@ -36,6 +36,7 @@ def _dec(v):
 
 
 ENV_KEY = '__env_consulted__'
+DB_DIR_KEY = '__database_data_dir__'
 
 
 def effective(program, base, override=None, instance=None, keys=(), environ=None):
@@ -71,7 +72,7 @@ def effective(program, base, override=None, instance=None, keys=(), environ=None
     with open(tmp, 'w') as f:
       f.write(lines[-1][7:])
     os.replace(tmp, path)
-  out = {kk: (_dec(v) if kk != ENV_KEY else v) for kk, v in json.load(open(path)).items()}
+  out = {kk: (_dec(v) if kk not in (ENV_KEY, DB_DIR_KEY) else v) for kk, v in json.load(open(path)).items()}
   _mem[k] = out
   return out
 
@@ -105,6 +106,7 @@ def cache_limits(max_cache, flow, variant='base'):
   base, override, instance = cache_conf(max_cache, flow, variant)
   out = dict(effective('carbon-cache', base, override, instance, CACHE_KEYS))
   out.pop(ENV_KEY, None)
+  out.pop(DB_DIR_KEY, None)
   return out
 
 
@@ -126,6 +128,7 @@ def full_settings(program, base, override=None, instance=None, environ=None):
   describe the scratch start-up itself."""
   r = dict(effective(program, base, override, instance, keys=['*'], environ=environ))
   r.pop(ENV_KEY, None)
+  r.pop(DB_DIR_KEY, None)
   return {k: v for k, v in r.items() if k not in NOT_TRANSFERABLE and v != MISSING}
 
 
@@ -134,7 +137,7 @@ def apply_cache_limits(settings, variant='base'):
   limits exactly as the daemon's start-up would have left them."""
   eff = cache_limits(settings['MAX_CACHE_SIZE'], bool(settings['USE_FLOW_CONTROL']), variant)
   for k, v in eff.items():
-    if k == ENV_KEY:
+    if k in (ENV_KEY, DB_DIR_KEY):
       continue
     if v == MISSING:
       settings.pop(k, None)
@@ -213,7 +216,8 @@ def _child():
       plugin_name = 'verifconf'
 
       def __init__(self, settings):
-        pass
+        # like the real plugins, remember the data directory the moment the database object is built
+        VerifConfDatabase.data_dir_at_construction = settings.LOCAL_DATA_DIR
 
     class Parent(dict):
       subCommand = req['program']
@@ -244,6 +248,7 @@ def _child():
       elif isinstance(v, (list, tuple)) and all(isinstance(x, (str, int, float, bool)) for x in v):
         out[k] = list(v)
     out[ENV_KEY] = sorted(k for k in consulted if isinstance(k, str))
+    out[DB_DIR_KEY] = getattr(VerifConfDatabase, 'data_dir_at_construction', MISSING)
     os.environ = real_environ
     print('RESULT ' + json.dumps(out))
   finally:
